@@ -69,6 +69,13 @@ class Executor(Evaluator):
     def s_Expr(self, stmt, st):
         if isinstance(stmt.value, ast.Constant):
             return [(st, ("next",))]  # docstring
+        if isinstance(stmt.value, ast.Yield):
+            env = getattr(self.cur_contract, "extra", {}).get("env", {}) if self.cur_contract else {}
+            if "yield" not in env:
+                raise Unsupported("yield without an environment handler")
+            v = self.eval(stmt.value.value, st) if stmt.value.value is not None else None
+            env["yield"](self, st, stmt, [v])
+            return [(st, ("next",))]
         if isinstance(stmt.value, ast.Call):
             f = stmt.value.func
             if isinstance(f, ast.Attribute) and isinstance(f.value, ast.Name) and f.value.id == "logger":
@@ -221,6 +228,22 @@ class Executor(Evaluator):
                 for s1, taken in self.branch(s0, c):
                     out.extend(self.eval_multi(node.body if taken else node.orelse, s1))
             return out
+        if isinstance(node, ast.BoolOp) and any(self.has_forking_call(v, st) for v in node.values):
+            # short-circuit evaluation with forking operands
+            is_and = isinstance(node.op, ast.And)
+            done, pending = [], [st]
+            for operand in node.values:
+                nxt = []
+                for s0 in pending:
+                    for s1, v in self.eval_multi(operand, s0):
+                        for s2, taken in self.branch(s1, v):
+                            if taken == is_and:
+                                nxt.append(s2)  # and: true -> continue ; or: false -> continue
+                            else:
+                                done.append((s2, not is_and))
+                pending = nxt
+            done.extend((s, is_and) for s in pending)
+            return done
         if self.has_forking_call(node, st):
             return self.eval_forking(node, st)
         return [(st, self.eval(node, st))]
@@ -361,6 +384,12 @@ class Executor(Evaluator):
                 if s2 is not st:
                     st.env, st.heap, st.pc = s2.env, s2.heap, s2.pc
                 return v
+            try:
+                tgt = self.lookup(name, st)
+            except Unsupported:
+                tgt = None
+            if isinstance(tgt, Opaque):
+                return Opaque(f"{name}()")  # environment object (Queue(), Process(...)): arguments are not interpreted
             raise Unsupported(f"call to unknown function {name} (line {self.line})")
         if isinstance(f, ast.Attribute):
             base = self.eval(f.value, st)
@@ -657,10 +686,11 @@ class Executor(Evaluator):
             s.ghost_env = st.ghost_env
             v = self.eval(a[0], s)
             return self.to_aexpr(s, v) if isinstance(v, Arr) else v
-        if name == "pre":
-            if not st.pre_stack:
-                raise Unsupported("pre() outside a loop contract")
-            s = st.pre_stack[-1].fork()
+        if name in ("pre", "it0"):
+            stack = [x for x in st.pre_stack if isinstance(x, tuple)] if name == "it0" else [x for x in st.pre_stack if not isinstance(x, tuple)]
+            if not stack:
+                raise Unsupported(f"{name}() outside a loop contract")
+            s = (stack[-1][1] if name == "it0" else stack[-1]).fork()
             s.spec = True
             for k in self._bound_names(st):
                 s.env[k] = st.env[k]
@@ -676,8 +706,13 @@ class Executor(Evaluator):
             return st.heap[v.obj.id] == st.old.heap[v.obj.id] if st.heap[v.obj.id] is not st.old.heap[v.obj.id] else True
         if name == "same_pre":
             v = self.eval(a[0], st)
-            p = st.pre_stack[-1]
+            p = [x for x in st.pre_stack if not isinstance(x, tuple)][-1]
             return st.heap[v.obj.id] == p.heap[v.obj.id] if st.heap[v.obj.id] is not p.heap[v.obj.id] else True
+        if name == "rowidx":
+            v = self.eval(a[0], st)
+            if isinstance(v, Arr) and v.axes and v.axes[0][0] == "fix":
+                return v.axes[0][1]
+            raise Unsupported("rowidx of a non-row value")
         if name == "let":
             s = st.fork()
             s.env[a[0].id] = self.eval(a[1], st)
